@@ -4,7 +4,7 @@ repo and require the named check to FIRE (exit 1 naming a violation) or stay SIL
 ./check selftest [Cxx ...] [--tier quick|thorough] [--list]
 
 Variants live in /verif/selftest/variants/<Cxx>.py as a list VARIANTS of dicts:
-  {'name', 'file', 'old', 'new', 'expect': 'fire'|'silent', optional 'count': n, 'rule': substring}
+  {'name', 'file', 'old', 'new', 'expect': 'fire'|'silent'|'inconclusive', optional 'count': n, 'rule': substring}
 The scratch copies are created under a temp dir outside /repo and /verif and removed afterwards.
 """
 import importlib.util
@@ -64,6 +64,10 @@ def run_variant(v, repo, tier, root):
             ok = r.returncode == 1 and 'VIOLATION property=%s' % v['pid'] in text
             if ok and v.get('rule') and v['rule'] not in text:
                 ok = False
+        elif v['expect'] == 'inconclusive':
+            # a behaviour-preserving variant the analysis is known not to decide: it must say so
+            # (exit 2), never report a violation and never pass silently by accident
+            ok = r.returncode == 2 and 'VIOLATION' not in text
         else:
             ok = r.returncode == 0 and 'VIOLATION' not in text
         return v, ('ok' if ok else 'FAIL'), 'exit=%d\n%s' % (r.returncode, text[-1500:])
@@ -86,12 +90,14 @@ def audit(pid, repo, tier='quick'):
     finally:
         shutil.rmtree(root, ignore_errors=True)
     out = {'variants': len(results), 'breaking_variants_reported': 0,
-           'preserving_variants_silent': 0, 'stale': 0, 'unexpected': []}
+           'preserving_variants_silent': 0, 'preserving_variants_not_concluded': 0, 'stale': 0,
+           'unexpected': []}
     for v, status, text in results:
         if status == 'STALE':
             out['stale'] += 1
         elif status == 'ok':
-            out['breaking_variants_reported' if v['expect'] == 'fire'
+            out['breaking_variants_reported' if v['expect'] == 'fire' else
+                'preserving_variants_not_concluded' if v['expect'] == 'inconclusive'
                 else 'preserving_variants_silent'] += 1
         else:
             out['unexpected'].append('%s (%s expected)' % (v['name'], v['expect']))
